@@ -13,6 +13,8 @@ Scenario families (a family = a `fam` string in the scenario):
   bf-midtrial   a transient failure / prune BETWEEN two suggests (spec action Abort)       -> K3
   grid-main     the same for GridSampler on a flat product space
   grid-enqueue  user-enqueued trials mixed into a grid run                                -> F13
+  grid-reseed   an interrupted grid run is resumed with a GridSampler(search_space, seed=<another seed>):
+                grid ids recorded by the first sampler are read as positions in the second sampler's shuffle
 """
 from __future__ import annotations
 
@@ -27,6 +29,7 @@ from . import common, tlc
 SIG_K3_RAISE = "bruteforce:midtrial-failure:ValueError-mismatch"
 SIG_K3_SKIP = "bruteforce:midtrial-failure:subtree-skipped"
 SIG_F13 = "grid:enqueued-trial:KeyError-grid_id"
+SIG_RESEED = "grid:resume-with-different-seed:cells-duplicated-or-skipped"
 
 
 # ------------------------------------------------------------------------------------------------
@@ -212,7 +215,7 @@ def _leaf_action(trial, leaf, j):
     return float(j % 5)
 
 
-def _drive(sc, make_sampler, objective_factory, ev, n_total_hint):
+def _drive(sc, make_sampler, objective_factory, ev):
     """Runs the segments of scenario sc on a fresh study; appends events to ev."""
     import optuna
 
@@ -250,7 +253,7 @@ def _drive(sc, make_sampler, objective_factory, ev, n_total_hint):
         if how != "same":
             if stkind != "mem" and how == "fresh":
                 storage = _mk_storage(stkind, path)
-            sd = sc["seed"] if how == "fresh" else sc["seed"] + 1000
+            sd = sc["seed"] if how == "fresh" else sc["seed"] + (4 if how == "fresh4" else 1000)
             study = optuna.load_study(study_name="s", storage=storage, sampler=make_sampler(sd))
         remaining = seg["cap"]
         while remaining > 0:
@@ -317,7 +320,7 @@ def run_bf(sc):
             return _leaf_action(trial, node, j)
         return objective
 
-    _drive(sc, make_sampler, factory, ev, len(leaf_paths(prog)))
+    _drive(sc, make_sampler, factory, ev)
     return {"prog": leaf_paths(prog), "ev": ev}
 
 
@@ -358,7 +361,7 @@ def run_grid(sc):
             return _leaf_action(trial, outs[",".join(map(str, cell))], j)
         return objective
 
-    _drive(sc, make_sampler, factory, ev, len(outs))
+    _drive(sc, make_sampler, factory, ev)
     return {"dims": [len(grid_values(p)) for p in params], "ev": ev}
 
 
@@ -417,9 +420,9 @@ def gen_bf(ctx, shape, fam, names_mode=None):
     if sc["seed"] is None:
         sc["seed"] = rng.randint(0, 2**31 - 1)
     r = rng.random()
-    if r < 0.04:
+    if r < 0.01:
         sc["storage"] = "sqlite"
-    elif r < 0.10:
+    elif r < 0.08:
         sc["storage"] = "journal"
     if fam == "bf-main":
         if L >= 3 and rng.random() < 0.3:
@@ -438,7 +441,7 @@ def gen_grid(ctx, fam):
         d = rng.choice([1, 1, 2, 2, 3])
         sizes = [rng.randint(1, 4) for _ in range(d)]
         n = math.prod(sizes)
-        if n <= 12 and (fam != "grid-enqueue" or n >= 2):
+        if n <= 12 and (fam == "grid-main" or n >= 2):
             break
     params = []
     cat_choices = {}
@@ -465,14 +468,20 @@ def gen_grid(ctx, fam):
     seed = rng.choice([None, 0, 1, 2, 7, 42, rng.randint(0, 10**6)])
     sc = {"fam": fam, "params": params, "outs": outs, "order": order, "seed": seed,
           "segments": _segments(rng, n, False)}
-    if fam == "grid-main":
+    if fam == "grid-reseed":
+        sc["seed"] = rng.randint(0, 50)
+        if len(sc["segments"]) == 1:
+            sc["segments"].insert(0, {"cap": rng.randint(1, n - 1)})
+        for s_ in sc["segments"][1:]:
+            s_["sampler"] = "fresh2"
+    elif fam == "grid-main":
         if n >= 3 and rng.random() < 0.3:
             for j in rng.sample(range(0, n - 1), rng.randint(1, min(2, n - 1))):
                 sc.setdefault("crash", {})[str(j)] = rng.choice(["crash", "ki"])
         r = rng.random()
-        if r < 0.04:
+        if r < 0.01:
             sc["storage"] = "sqlite"
-        elif r < 0.10:
+        elif r < 0.08:
             sc["storage"] = "journal"
     else:
         # user-enqueued full combinations before some of the calls (at most 2 in total)
@@ -497,6 +506,13 @@ def f13_scenario():
     outs = {str(i): {"out": "COMPLETE"} for i in range(3)}
     return {"fam": "grid-enqueue", "params": params, "outs": outs, "order": [0], "seed": None,
             "segments": [{"cap": 2}, {"cap": 6, "sampler": "same", "enqueue": [{"params": {"x": 1}}]}]}
+
+
+def reseed_scenario():
+    params = [{"n": "x", "k": "int", "a": {"low": 0, "high": 3}}]
+    outs = {str(i): {"out": "COMPLETE"} for i in range(4)}
+    return {"fam": "grid-reseed", "params": params, "outs": outs, "order": [0], "seed": 0,
+            "segments": [{"cap": 2}, {"cap": 7, "sampler": "fresh4"}]}
 
 
 def k3_scenario():
@@ -566,6 +582,11 @@ def _signature(sc, trace, info):
     if sc["fam"] == "grid-enqueue":
         if e.get("op") == "raise" and "KeyError: 'grid_id'" in e.get("chain", ""):
             return SIG_F13
+    if sc["fam"] == "grid-reseed":
+        # after the first call every call uses a sampler of another seed: a cell evaluated again ("cell"), a stop with
+        # cells left ("return"), or both
+        if e.get("op") in ("cell", "return") and any(x["op"] in ("return", "interrupt") for x in ev[:at - 1]):
+            return SIG_RESEED
     return None
 
 
@@ -573,6 +594,7 @@ def judge(ctx, scs, traces, label, shards=5):
     """scs[i] produced traces[i]; validates per spec module (both modules at once), reports rejections."""
     import concurrent.futures as cf
     n_viol = 0
+    per_kind = {}
     work = []
     for key, (mod, cfg) in SPEC_OF.items():
         idx = [i for i, sc in enumerate(scs) if sc["fam"].startswith(key)]
@@ -602,7 +624,9 @@ def judge(ctx, scs, traces, label, shards=5):
                 ctx.notes["known_finding_traces"][sig] += 1
             else:
                 n_viol += 1
-                if n_viol <= 8:
+                k = (sc["fam"], sig)
+                per_kind[k] = per_kind.get(k, 0) + 1
+                if per_kind[k] <= 3 and len(ctx.violations) < 12:
                     ctx.violation((f"[{sig}] " if sig else "") + text, {"scenario": sc, "trace": tr, "spec": mod,
                                                                         "signature": sig})
     return n_viol
@@ -658,7 +682,7 @@ def _scenarios(ctx):
     for _ in range(1 if quick else 6):
         for s in shapes:
             scs.append(gen_bf(ctx, s, "bf-main"))
-    for _ in range(800 if quick else 12000):
+    for _ in range(1400 if quick else 12000):
         while True:
             s = random_shape(rng, rng.choice([2, 3, 3, 4]), 3, 0.05)
             if 2 <= n_leaves_shape(s) <= (12 if quick else 16):
@@ -671,11 +695,14 @@ def _scenarios(ctx):
             if s and 2 <= n_leaves_shape(s) <= 9:
                 break
         scs.append(gen_bf(ctx, s, "bf-midtrial"))
-    for _ in range(700 if quick else 8000):
+    for _ in range(1000 if quick else 8000):
         scs.append(gen_grid(ctx, "grid-main"))
     scs.append(f13_scenario())
     for _ in range(100 if quick else 1500):
         scs.append(gen_grid(ctx, "grid-enqueue"))
+    scs.append(reseed_scenario())
+    for _ in range(40 if quick else 500):
+        scs.append(gen_grid(ctx, "grid-reseed"))
     return scs
 
 
